@@ -47,11 +47,12 @@ def _from_export(rec, rnd):
     cfg['kind'] = 'fsm'
     cfg['initv'] = 0
     cfg.setdefault('xbad', [0] * cfg['n'])
+    cfg.setdefault('echain', [0] * cfg['n'])
     script = []
     stop_at = None
     for h in rec['hist']:
         if h['op'] == 'ext':
-            script.append({'t': h['t'], 'e': h['e'], 'd': h['d'], 'v': 0, 'rep': _rep(rnd)})
+            script.append({'t': h['t'], 'e': h['e'], 'd': h['d'], 'v': 0, 'rep': _rep(rnd), 'c': int(bool(h.get('c')))})
         elif h['op'] == 'stop':
             stop_at = h['t']
     if stop_at is None:
@@ -80,7 +81,9 @@ def _rand_fsm(rnd):
     cf = [[int(rnd.random() < 0.2) for _ in range(n)] for _ in range(m)]
     return {'n': n, 'm': m, 'trans': trans, 'any': any_, 'cf': cf, 'tev': tev, 'cdur': cdur,
             'idur': idur, 'init': rnd.randint(1, n), 'kind': 'fsm', 'initv': 0,
-            'xbad': [int(rnd.random() < 0.15) for _ in range(n)]}
+            'xbad': [int(rnd.random() < 0.15) for _ in range(n)],
+            # the entry action of a state may send an event to its own FSM (chained transition)
+            'echain': [rnd.choice([0, 0, 0] + known + [100 + rnd.randint(1, n)]) for _ in range(n)]}
 
 
 def _timer_cfg(args):
@@ -91,13 +94,14 @@ def _timer_cfg(args):
         idur = [args['t_off'], args['t_on']]
     return {'n': 2, 'm': 3, 'trans': [[-1, -1], [-1, -1], [2, 1]], 'any': [2, 1, -1],
             'cf': [[0, nr], [nr, 0], [0, 0]], 'tev': [1, 2], 'cdur': [INFV, INFV], 'idur': idur,
-            'init': args['init'], 'kind': 'timer', 'initv': 0, 'xbad': [0, int(bool(args.get('xbad')))]}
+            'init': args['init'], 'kind': 'timer', 'initv': 0, 'xbad': [0, int(bool(args.get('xbad')))],
+            'echain': [0, 0]}
 
 
 def _inputexp_cfg(args):
     return {'n': 2, 'm': 1, 'trans': [[-1, -1]], 'any': [2], 'cf': [[0, 0]], 'tev': [0, 101],
             'cdur': [NONEV, NONEV], 'idur': [ABSENTV, args['duration']],
-            'init': 2 if args['initv'] else 1, 'kind': 'inputexp', 'initv': args['initv'], 'xbad': [0, 0]}
+            'init': 2 if args['initv'] else 1, 'kind': 'inputexp', 'initv': args['initv'], 'xbad': [0, 0], 'echain': [0, 0]}
 
 
 def _rand_script(rnd, cfg, horizon):
@@ -114,7 +118,8 @@ def _rand_script(rnd, cfg, horizon):
         else:
             e = rnd.randint(1, cfg['m'])
         d = rnd.choice([ABSENTV] * 5 + [NONEV, 0, 1, 2, 3, 5, INFV, -2])
-        script.append({'t': t, 'e': e, 'd': d, 'v': rnd.randint(1, 5), 'rep': _rep(rnd)})
+        script.append({'t': t, 'e': e, 'd': d, 'v': rnd.randint(1, 5), 'rep': _rep(rnd),
+                       'c': int(cfg['kind'] == 'fsm' and rnd.random() < 0.4)})
     script.sort(key=lambda x: x['t'])
     return script
 
@@ -307,6 +312,12 @@ def execute(stim):
                 def cond(self, _e=e):
                     return not cfg['cf'][_e - 1][snames.index(self.state)]
                 ns[f'cond_e{e}'] = cond
+        for s in range(1, n + 1):
+            if cfg['echain'][s - 1]:
+                def enter(self, _ev=cfg['echain'][s - 1]):
+                    if edzed.fsm_event_data.get().get('chain'):
+                        self.event(etype(_ev))
+                ns[f'enter_s{s}'] = enter
         cls = type('GenTimedFSM', (edzed.FSM,), ns)
         kw = {}
         for s in range(1, n + 1):
@@ -356,6 +367,8 @@ def execute(stim):
                     data['duration'] = _dur(op['d'], op['rep'])
                 if kind == 'inputexp':
                     data['value'] = op['v']
+                if op.get('c'):
+                    data['chain'] = 1
                 et = etype(op['e'])
                 st['driver'] = True
                 try:
@@ -371,7 +384,7 @@ def execute(stim):
                 finally:
                     st['driver'] = False
                 lines.append({'ev': 'ext', 't': tick(loop.time()), 'e': op['e'], 'd': op['d'],
-                              'v': op['v'], 'ret': ret,
+                              'v': op['v'], 'c': int(bool(op.get('c'))), 'ret': ret,
                               **(proj() if ret != 'error' else {'st': 0, 'out': 0, 'pend': [], 'gs': -1})})
             if circuit.error is None and not task.done():
                 await until(stop_at)
